@@ -47,6 +47,10 @@ def job_of(case, step_i, plan, log="sandbox"):
         "timeout_s": case.get("timeout_s", 60),
         "record_sched": bool(plan.get("record_sched")),
     }
+    if job["sched"].get("ustep_main") and case.get("bin") != "probe":
+        # the CLI's main thread runs time-dependent code (progress rate limiting): stepping it by instruction counts would not
+        # replay; the probe's main thread (channel receiver) has no such code
+        job["sched"] = {k: v for k, v in job["sched"].items() if k != "ustep_main"}
     if plan.get("kill_at") is not None:
         job["kill_at"] = plan["kill_at"]
     if "kernel" in plan:
@@ -72,7 +76,9 @@ def run_step(sim, case, step_i, plan, log="sandbox", ignore=None, clone_ok=None)
 
 def summarize(res, findings, plan=None, extra=None):
     st = res.get("stats", {})
+    findings = oracle.drop_unsound_on_truncated_log(res, findings)
     rec = {
+        "log_truncated": bool(st.get("events_dropped")),
         "outcome": res["outcome"],
         "findings": [f.to_json() for f in findings],
         "sig": st.get("sched_sig"),
@@ -87,6 +93,8 @@ def summarize(res, findings, plan=None, extra=None):
         "peak_fds": st.get("peak_fds", 0),
         "wall_ms": res.get("wall_ms", 0),
     }
+    if res["outcome"].get("kind") != "exit" or res["outcome"].get("code"):
+        rec["stderr_tail"] = res.get("stderr", "")[-300:]
     if plan is not None:
         rec["plan"] = plan
     if extra:
@@ -200,7 +208,7 @@ def execute(check, tier, seed, budget_s=None, out=sys.stdout):
             n_items += 1
             if len(samples) < 3:
                 samples.append(check.sample_of(rec) if hasattr(check, "sample_of") else rec.get("sample", rec.get("item")))
-            if len(audit) < 4 and rec.get("item") is not None:
+            if len(audit) < 4 and rec.get("item") is not None and not (rec["item"].get("case") or {}).get("no_audit"):
                 audit.append(rec)
             for k, v in rec.get("probes", {}).items():
                 probes[k] = probes.get(k, 0) + v
@@ -216,6 +224,8 @@ def execute(check, tier, seed, budget_s=None, out=sys.stdout):
                 outcomes[ok] = outcomes.get(ok, 0) + 1
                 if run.get("unexpected_failure"):
                     unexpected_fail += 1
+                if run.get("log_truncated"):
+                    probes["runs-with-truncated-event-log"] = probes.get("runs-with-truncated-event-log", 0) + 1
                 for k, v in run.get("kernel_fired", {}).items():
                     kernel_fired[k] = kernel_fired.get(k, 0) + v
                 for fl in run.get("faults", []):
